@@ -1,0 +1,9 @@
+//go:build verif
+
+package cli
+
+// ParseAddressForVerif exposes the unexported CLI address parser to the
+// verification harness. It is compiled only with the "verif" build tag.
+func ParseAddressForVerif(address string) ([]byte, error) {
+	return parseAddress(address)
+}
